@@ -547,6 +547,15 @@ class OpsMixin:
             return sel[1]
         return None
 
+    def reentrant(self, issuer, rq):
+        """Is the issuer user code that the spawner of `rq` itself is executing (argument iterator, func call)?"""
+        if issuer[0] not in ("iter", "call"):
+            return False
+        src = issuer[1]
+        if src is rq:
+            return True
+        return src.kind == "sfunc" and rq.kind == "start" and src.pool is rq.pool
+
     def op_cancel_group(self, step, issuer):
         pr = self.pools[step["pool"]]
         X = self.mods.exc
@@ -555,8 +564,8 @@ class OpsMixin:
         if name is None:
             return
         rq = pr.live_groups.get(name)
-        if rq is not None and issuer[0] in ("iter", "call") and issuer[1] is rq:
-            return  # re-entrant cancellation from the group's own iterator: out of scope
+        if rq is not None and self.reentrant(issuer, rq):
+            return  # re-entrant cancellation from the group's own iterator / call site (inside its spawner): out of scope
         sitn = self.spawner_situation(pr, rq) if rq is not None else "n/a"
         snap = self.snapshot(pr) if rq is None else None
         self.ev("op_call", "cancel_group", pr.idx, name, issuer[0])
@@ -596,8 +605,8 @@ class OpsMixin:
         names = list(pr.live_groups)
         for n in names:
             rq = pr.live_groups[n]
-            if issuer[0] in ("iter", "call") and issuer[1] is rq:
-                return  # would cancel the issuer's own group from its own iterator
+            if self.reentrant(issuer, rq):
+                return  # would cancel the issuer's own group from inside its own spawner
         self.ev("op_call", "cancel_all", pr.idx, issuer[0])
         sits = [self.spawner_situation(pr, pr.live_groups[n]) for n in names]
         kw = {"msg": step["msg"]} if step.get("msg") else {}
